@@ -32,6 +32,21 @@ def h_named(B, named="MCA", n=4, p=2, q=2, k=2, cplx=False, use_pca=False):
     for i in range(2):
         B.eq(f"{named} == {gen}: components{i + 1}", m1.components()[i], m2.components()[i])
         B.eq(f"{named} == {gen}: scores{i + 1}", m1.scores()[i], m2.scores()[i])
+    # every public result method, not only the primary outputs
+    metrics = ["squared_covariance_fraction", "cross_correlation_coefficients", "correlation_coefficients_X", "correlation_coefficients_Y", "fraction_variance_X_explained_by_X", "fraction_variance_Y_explained_by_Y", "fraction_variance_Y_explained_by_X"]
+    if not cplx:
+        for mname in metrics:
+            def call(m_, mname=mname):
+                try:
+                    return ("ok", getattr(m_, mname)())
+                except (NotImplementedError, ValueError) as e:
+                    return ("refused", type(e).__name__)
+            r1, r2 = call(m1), call(m2)
+            B.check(f"{named} == {gen}: {mname}() is available for both or refused by both", r1[0] == r2[0], f"{named}: {r1[0]} ({r1[1] if r1[0] != 'ok' else ''}), {gen}: {r2[0]} ({r2[1] if r2[0] != 'ok' else ''})")
+            if r1[0] == "ok" and r2[0] == "ok":
+                B.eq(f"{named} == {gen}: {mname}()", r1[1], r2[1])
+        Xn = da2d(B, "xn", 2, p, cplx, feat="x", scoords=[100, 101])
+        B.eq(f"{named} == {gen}: predict(X_new)", m1.predict(Xn), m2.predict(Xn))
     p1 = {k_: v for k_, v in m1.get_params().items() if k_ != "alpha"}
     p2 = {k_: v for k_, v in m2.get_params().items() if k_ != "alpha"}
     B.check("stored parameters equal apart from alpha", p1 == p2, f"{p1} vs {p2}")
